@@ -103,8 +103,12 @@ func entriesFor(ev int) []int {
 
 //go:norace
 func runC07(e *Env) {
-	if e.P(3) == 2 {
+	switch e.P(4) {
+	case 2:
 		runC07Transport(e)
+		return
+	case 3:
+		runC07Burst(e)
 		return
 	}
 	var pl c07Plan
@@ -447,6 +451,74 @@ func runC07Transport(e *Env) {
 		}
 	} else if len(ina) == 0 && rig.Ch.IsActive() && what == 2 {
 		c07RoundTrip(e, rig, last)
+	}
+	rig.Teardown()
+}
+
+// runC07Burst: a burst of writes piles up behind a stalled sender so that full batches form, and one transport
+// Writev or Flush call fails - once (transient) or from then on.
+//
+//go:norace
+func runC07Burst(e *Env) {
+	q := []int{8, 2, 4}[e.P(3)]
+	cc := ChanCfg{Async: true, Q: q, Until: true}
+	what := e.P(2) // 0 write, 1 flush
+	k := 1 + e.P(4)
+	once := e.P(2) == 0
+	ferr := errors.New("injected transient transport failure")
+	writers := 1 + e.P(2)
+	per := q/2 + 2 + e.P(3)
+	e.Describe("channel=%s burst: %d writers x %d messages behind a stalled sender; transport %s call #%d fails (only that call: %v)", cc, writers, per, []string{"Writev", "Flush"}[what], k, once)
+	e.Count("point:transport-burst/"+[]string{"write", "flush"}[what], 1)
+	rig := e.NewRig(cc, false, &Probe{env: e, Name: "mid", Outbound: true, Swallow: e.P(2) == 1})
+	last := rig.Probe
+	rig.Conn.Stalled = true
+	rig.Conn.FailOnce = once
+	if what == 0 {
+		rig.Conn.FailWriteAt, rig.Conn.FailWriteErr = k, ferr
+	} else {
+		rig.Conn.FailFlushAt, rig.Conn.FailFlushErr = k, ferr
+	}
+	e.Sim.TimeSensitive()
+	e.Go("main", func() {
+		rig.Serve()
+		for w := 0; w < writers; w++ {
+			w := w
+			e.Go(fmt.Sprintf("writer%d", w), func() {
+				for i := 0; i < per; i++ {
+					e.Step()
+					func() {
+						defer func() { recover() }()
+						rig.Ch.Write([]byte{byte(w*16 + i + 1), 0xBB})
+					}()
+				}
+			})
+		}
+		e.Go("releaser", func() {
+			simrt.Sleep(SiteDelay, time.Second)
+			rig.Conn.Release()
+		})
+	})
+	e.RunToEnd()
+	if rig.Conn.Fired.WriteErrs+rig.Conn.Fired.FlushErrs == 0 {
+		e.Count("fault_plan_not_reached", 1)
+		rig.Teardown()
+		return
+	}
+	e.Count("transport_faults_fired", 1)
+	if once {
+		e.Count("transient_faults_fired", 1)
+	}
+	ina := last.Of("inactive")
+	if len(ina) != 1 {
+		e.Violate("failure-closes", fmt.Sprintf("burst,%s,inactive=%d", []string{"write", "flush"}[what], len(ina)), "the background sender's transport %s call #%d failed (%q) but the channel was not closed (inactive delivered %d times)", []string{"Writev", "Flush"}[what], k, ferr, len(ina))
+	} else if ina[0].Err != ferr && !errors.Is(ina[0].Err, ferr) {
+		e.Violate("failure-closes", "burst,wrong-error", "channel closed with %q instead of the transport error %q", errStr(ina[0].Err), ferr)
+	}
+	for _, ev := range rig.Conn.Log {
+		if ev.Kind == simnet.EvWritev && len(ev.Bufs) >= q/2+1 {
+			e.Count("full_sender_batches", 1)
+		}
 	}
 	rig.Teardown()
 }
